@@ -245,13 +245,25 @@ def _special_case(args):
 
 
 def _strip_summaries(path):
+    """Files as acquisition software or plain h5py writes them: no stored
+    summaries, and the scalar features in chunks of two events (so that
+    whatever completes the summaries later sees several chunks with
+    different numbers of valid values)."""
     with h5py.File(path, "a") as h5:
-        for f in h5["events"]:
+        for f in list(h5["events"]):
             obj = h5["events"][f]
             if isinstance(obj, h5py.Dataset):
                 for k in ("min", "max", "mean"):
                     if k in obj.attrs:
                         del obj.attrs[k]
+                if obj.ndim == 1 and obj.shape[0] > 2:
+                    data = obj[:]
+                    attrs = dict(obj.attrs)
+                    del h5["events"][f]
+                    new = h5["events"].create_dataset(
+                        f, data=data, chunks=(2,), maxshape=(None,))
+                    for k, v in attrs.items():
+                        new.attrs[k] = v
 
 
 def _production_case(args):
